@@ -155,7 +155,8 @@ def ufunc_count_case(draw):
             "names": draw(st.permutations(["a", "b", "c", "X", "Y", "lon"]))[:3], "repeat_of": draw(st.sampled_from([0, 1])),
             "pos": draw(st.sampled_from(["center", "left"])),
             # which wrong number: one grid axis for two signature axes, or one `other_component` for several inputs
-            "wrong": draw(st.sampled_from(["same-axis-twice", "same-axis-twice", "one-other-component", "one-other-component-in-a-list"]))}
+            "wrong": draw(st.sampled_from(["same-axis-twice", "same-axis-twice", "one-other-component", "one-other-component-in-a-list",
+                                           "one-entry-too-long", "one-entry-too-long"]))}
 
 
 def check_ufunc_count(case, ctx):
@@ -186,9 +187,9 @@ def check_ufunc_count(case, ctx):
             tot = tot * x.sum(-1)[..., None] if case["out"] == "first" else tot * x.sum(-1)
         return tot
 
-    def call(real, **extra):
+    def call(real, axis=None, **extra):
         das = [xr.DataArray(np.arange(1.0, n + 1.0) * (i + 1), dims=[gc[r][pos]]) for i, r in enumerate(real)]
-        axis = [(r,) for r in real]
+        axis = axis or [(r,) for r in real]
         with warnings.catch_warnings():
             warnings.simplefilter("ignore")
             try:
@@ -211,6 +212,15 @@ def check_ufunc_count(case, ctx):
         bad[-1] = good[case["repeat_of"] % (k - 1)]   # the last input names the axis of an earlier one
         got = call(bad)
         edit = "one grid axis supplied for two distinct signature axes"
+    elif wrong == "one-entry-too-long":
+        # one entry of `axis` names more axes than its signature entry has (the surplus one occurs elsewhere in the call)
+        j = case["repeat_of"] % k
+        axl = [(r,) for r in good]
+        axl[j] = (good[j], good[(j + 1) % k])
+        got = call(good, axis=axl)
+        bad = [list(a_) for a_ in axl]
+        edit = "an `axis` entry with more axes than its signature entry"
+        classes[0] = "edit:ufunc-axis-entry-too-long"
     else:
         # one partner component for several inputs: which input it belongs to is not defined (one per input, or none)
         partner = {"Y": xr.DataArray(np.ones(n), dims=[gc["Y"][pos]])}
@@ -220,7 +230,7 @@ def check_ufunc_count(case, ctx):
         classes[0] = "edit:ufunc-one-other-component-for-several-inputs"
     if got[0] == "ok":
         raise Violation("an ill-posed request was answered instead of refused", edit=edit,
-                        signature=sig, axis=[[r] for r in bad], route=case["route"], answer=list(getattr(got[1], "dims", ())))
+                        signature=sig, axis=[r if isinstance(r, list) else [r] for r in bad], route=case["route"], answer=list(getattr(got[1], "dims", ())))
     return {"nontrivial": True, "classes": classes + ["raised:" + got[1]]}
 
 
